@@ -149,6 +149,15 @@ func C02_Struct() {
 		}
 		return alt
 	}
+	if env.ParamOr("warmup", 0) == 1 {
+		// the verdict must not depend on what the same validator was asked before: an earlier call with the same
+		// certificate in an arbitrary mode (its outcome is ignored) precedes the judged call
+		soft0 := env.NondetBool("warmup_soft")
+		p0 := env.Catch(func() {
+			_ = e.worker.ValidateBlockConsensus(context.Background(), block, proof, prevBlock, prevProof, soft0)
+		})
+		env.Assert("C02.no_panic.struct", p0 == 0)
+	}
 	var err error
 	p := env.Catch(func() {
 		err = e.worker.ValidateBlockConsensus(context.Background(), block, proof, prevBlock, prevProof, soft)
